@@ -5,6 +5,9 @@ VERIF = os.path.dirname(os.path.dirname(os.path.abspath(__file__)))
 props = {json.loads(l)["id"]: json.loads(l) for l in open(os.path.join(VERIF, "properties.jsonl"))}
 
 CHECKS = {
+ "C05": dict(cat="exploration", technique="stateful property-based testing (proptest-generated chains and schedules) of the real client against a simulated honest network; oracle = no ban / only documented timeouts / fair drain reaches the heaviest tip + reference index",
+   text="Generated chains (per-epoch difficulty within tau, 1..300 quick / ..2500 thorough blocks, Eaglesong-mined) are synced end to end by the unmodified handlers through generated schedules (delivery order, ticks, growth, restarts, peers at different heights, H3-seeded samples). Any ban or non-timeout disconnect of an honest peer, or a quiescent state that is not the goal, is a violation. Exploration of a very large history space, no exhaustiveness.",
+   note="Trusted base: the re-implemented honest server (DESIGN 4.2). Known findings D12 (e2e), D14, D15 tolerated by signature and end the history; forks are exercised in C04.", ref="6/C05"),
  "C14": dict(cat="exploration", technique="property-based testing (proptest) + exhaustive small-grid enumeration against a constructive legal-history oracle",
    text="Generated and exhaustively enumerated legal epoch histories must be accepted (completeness), 8 constructed illegal classes must be rejected, arbitrary numbers must not abort; a bounded search, not a proof. Right level: the property is a for-all over numbers with a closed-form oracle.",
    note="Oracle = constructive legal histories under both readings of tau + free-end envelope; harness built with rustc 1.95, overflow-checks on; known finding D12 (two signatures) tolerated, any other rejection of a legal history is a violation.", ref="6/C14"),
